@@ -64,8 +64,15 @@ func c06Oracle(sc advScenario, r *advResult) error {
 	last := map[int]simWrite{}
 	seen := map[int]bool{}
 	for _, w := range r.Writes {
-		if w.Dst != vkAllNodes || w.Start >= r.StopAt {
+		if w.Dst != vkAllNodes {
 			continue
+		}
+		if w.Start >= r.StopAt && !sc.NoStop {
+			// "only the single zero-lifetime advertisement sent on termination is exempt" - and what starts at the very
+			// instant of the stop, which may have been due before it
+			if w.Start == r.StopAt || (sc.Terminate && (w.Lifetime == 0 || sc.Cfg.LifeS == 0)) {
+				continue
+			}
 		}
 		if seen[w.Conn] {
 			if gap := w.Start - last[w.Conn].Start; gap < c06Min {
@@ -113,6 +120,43 @@ func c06Oracle(sc advScenario, r *advResult) error {
 		if !served {
 			return verifkit.Violf("C06/trigger-not-served", "%s at %v on connection %d: no multicast RA within [%v,%v]\n%s",
 				tr.what, tr.at, tr.conn, tr.at, tr.at+c06Min, r.W.timeline())
+		}
+	}
+	// the periodic timer for any min/max pair: it fires no later than MaxRtrAdvInterval (to one second) after it was
+	// set, and what it asks for goes out at most 3 s later - so while a connection lives, two consecutive multicast
+	// RAs are never further apart than that (a tick that gets lost shows as a gap of up to twice the interval)
+	if !sc.Cfg.UnicastOnly {
+		var slow time.Duration
+		for _, l := range sc.Lat {
+			slow = max(slow, time.Duration(l.NS))
+		}
+		bound := time.Duration(sc.Cfg.MaxNS).Round(time.Second) + time.Second + c06Min + 2*slow
+		lastMC := map[int]time.Duration{}
+		for c, s := range start {
+			lastMC[c] = s
+		}
+		check := func(conn int, from, to time.Duration) error {
+			if to-from > bound {
+				return verifkit.Violf("C06/periodic-ra-missing", "connection %d: no multicast RA between %v and %v (%v; max_interval %v + 3 s allow %v)\n%s",
+					conn, from, to, to-from, time.Duration(sc.Cfg.MaxNS), bound, r.W.timeline())
+			}
+			return nil
+		}
+		for _, w := range r.Writes {
+			if w.Dst != vkAllNodes || w.Start < start[w.Conn] || w.Start >= end[w.Conn] {
+				continue
+			}
+			if err := check(w.Conn, lastMC[w.Conn], w.Start); err != nil {
+				return err
+			}
+			lastMC[w.Conn] = w.Start
+		}
+		for c, at := range lastMC {
+			if end[c] > at {
+				if err := check(c, at, end[c]); err != nil {
+					return err
+				}
+			}
 		}
 	}
 	return nil
@@ -272,6 +316,9 @@ func c06Gen(t *rapid.T) advScenario {
 		}
 	}
 	sc.StopNS = at + rapid.Int64Range(0, 12*s).Draw(t, "tail")
+	if rapid.IntRange(0, 5).Draw(t, "longtail") == 0 {
+		sc.StopNS += rapid.Int64Range(100*s, 400*s).Draw(t, "longtailv") // (long enough for the periodic timer to leave its initial phase)
+	}
 	if rapid.IntRange(0, 3).Draw(t, "unicastfails") == 0 {
 		// some transmission to a host fails while the all-nodes group can still be reached (the host has left):
 		// whatever the advertiser then does - it re-initialises - the multicast RAs of each initialisation keep their distance
@@ -301,5 +348,27 @@ func TestVerif_C06(t *testing.T) {
 		s := int64(time.Second)
 		verifkit.Enumerate(k, t, "grid-histories-of-5-events(boundary-grid)", true, c06GridOn(5, []int64{0, 1, 3*s - 1, 3 * s, 3*s + 1}, []int64{4}, 5), prop)
 	}
+	verifkit.Enumerate(k, t, "bursts-on-every-tick", true, c06TickBursts, prop)
 	verifkit.Rapid(k, t, "random-bursty-histories", k.N(2000, 100000), c06Gen, prop)
+}
+
+// c06TickBursts: a crowd of unicast solicitations (more than the request queue holds) at, just before and just after
+// every one of a dozen periodic ticks: whether a tick is lost in the crowd depends on which goroutine runs first at
+// that instant, so one burst on one tick (as the random histories have it) finds such a loss only now and then.
+func c06TickBursts(yield func(advScenario) bool) {
+	s := int64(time.Second)
+	for _, mx := range []int64{4, 5, 8} {
+		for _, n := range []int{17, 40, 60} {
+			for _, off := range []int64{0, -1, 1} {
+				sc := advScenario{Cfg: c06BaseCfg(mx), Fwd0: true}
+				for k := int64(1); k <= 12; k++ {
+					sc.Events = append(sc.Events, advEvent{AtNS: k*mx*s + off, Kind: "rs", From: c06Sources[int(k)%len(c06Sources)], N: n})
+				}
+				sc.StopNS = 13*mx*s + 2*s
+				if !yield(sc) {
+					return
+				}
+			}
+		}
+	}
 }
